@@ -141,13 +141,13 @@ static void event(void)
 {
     struct ev_in in;
     in.commit  = in_bool();
-    in.tlen    = (unsigned)in_range(1, lmax);
-    in.tllid   = (int)in_range(1, 3);
+    in.tlen    = 1 + (unsigned)in_range(0, lmax - 1);   /* ranges start at 0: a replay file that ends early stays valid */
+    in.tllid   = 1 + (int)in_range(0, 2);
     in.ttag    = in_u8();
     in.consume = in_bool();
     in.c_empty = in_bool();
-    in.c_len   = (unsigned)in_range(1, lmax);
-    in.c_llid  = (int)in_range(1, 3);
+    in.c_len   = 1 + (unsigned)in_range(0, lmax - 1);
+    in.c_llid  = 1 + (int)in_range(0, 2);
     in.c_tag   = in_u8();
     in.md      = in_bool();
     in.fate    = (int)in_range(0, prop == 15 ? 2 : 3);
